@@ -31,7 +31,7 @@ from ..recorder import norm_ev_type
 
 LEVEL = "model_checking"
 RULE = (
-    "(A) BFS to closure of TREE(N) universal machines + INC (assign) and of the ACTOR machine (spawnChild with systemId, "
+    "(A) BFS to closure of TREE(N) universal machines + INC (assign) and of the ACTOR machine and the ACTORF machine (a child whose machine definition a factory picks from the parent's context) (spawnChild with systemId, "
     "sendTo, child with its own states) on both engines; at EVERY reachable state: restore(snapshot) canonically equal, "
     "re-snapshot identical, valid JSON, snapshot dict unchanged after the source runs on, and for every event of the "
     "alphabet step(original) == step(restored) == step(restored twice) on canonical state and action trace; (B) all "
@@ -40,8 +40,8 @@ RULE = (
     "distinct_nontrivial = distinct (machine, engine, state) crash points + distinct corruptions"
 )
 BOUNDS = {
-    "quick": "TREE(N<=3) + ACTOR machine; corruptions of 3 base snapshots",
-    "thorough": "TREE(N<=4) + ACTOR machine; corruptions of 6 base snapshots",
+    "quick": "TREE(N<=3) + ACTOR and ACTORF machines; corruptions of 3 base snapshots",
+    "thorough": "TREE(N<=4) + ACTOR and ACTORF machines; corruptions of 6 base snapshots",
 }
 ASSUMPTIONS = [
     "pending timers and in-flight services are excluded (documented); machines here have none",
@@ -62,6 +62,27 @@ def kid_machine():
     )
 
 
+def kid_variant(k: int):
+    """Two child definitions with the same state ids and different behaviour; which one a child runs on is chosen by a
+    factory from the PARENT's context at spawn time - and again when the actor is rebuilt from a snapshot."""
+    on_poke = {"target": "q"} if k == 0 else {"actions": [A.assign(lambda a: {"n": (a["context"]["n"] + 1) % 2})]}
+    return create_machine(
+        {"id": "kidf", "initial": "p", "context": {"n": 0},
+         "states": {"p": {"on": {"POKE": on_poke}}, "q": {"on": {"POKE": "p"}}}},
+        logic=MachineLogic(),
+    )
+
+
+_KID_VARIANTS: Dict[int, Any] = {}
+
+
+def kid_factory(interp, ctx, ev):
+    k = ctx.get("mode", 0)
+    if k not in _KID_VARIANTS:
+        _KID_VARIANTS[k] = kid_variant(k)
+    return _KID_VARIANTS[k]
+
+
 def actor_cfg() -> Dict[str, Any]:
     return {
         "id": "m", "initial": "a", "context": {"k": 0},
@@ -76,12 +97,28 @@ def actor_cfg() -> Dict[str, Any]:
             "PING": {"actions": [A.send_to("sys1", "POKE"), "tr:ping"]},
             "PING2": {"actions": [A.send_to("k2", "POKE"), "tr:ping2"]},
             "KILL": {"actions": [A.stop_child("k1"), "tr:kill"]},
+
             "HIST": {"target": "#m.b.h"},
             "INC": {"actions": [A.assign(lambda a: {"k": (a["context"]["k"] + 1) % 2})]},
         },
     }
 
 
+def actorf_cfg() -> Dict[str, Any]:
+    """The child's definition is picked by a factory from the parent's context key `mode`, which can only change while no
+    child exists (so the snapshot's context determines the definition the child was spawned on)."""
+    return {
+        "id": "m", "initial": "a", "context": {"mode": 0, "sp": False},
+        "states": {"a": {}},
+        "on": {
+            "MODE": {"guard": "unspawned", "actions": [A.assign(lambda a: {"mode": 1 - a["context"]["mode"]}), "tr:mode"]},
+            "SPAWN3": {"guard": "unspawned", "actions": [A.spawn_child("kidf", actor_id="k3", system_id="sys3"), A.assign({"sp": True}), "tr:spawn3"]},
+            "PING3": {"actions": [A.send_to("sys3", "POKE"), "tr:ping3"]},
+        },
+    }
+
+
+ACTORF_EVENTS = ["MODE", "SPAWN3", "PING3"]
 ACTOR_EVENTS = ["GO", "N", "BACK", "SPAWN", "SPAWN2", "PING", "PING2", "KILL", "HIST", "INC"]
 
 
@@ -106,11 +143,11 @@ def step_trace(d, ev) -> tuple:
     return (canon_interp(d.interp), acts, type(err).__name__ if err else None)
 
 
-def explore_machine(cfg, events: List[str], label: str, services=None, max_depth_actor: Optional[int] = None):
+def explore_machine(cfg, events: List[str], label: str, services=None, max_depth_actor: Optional[int] = None, guards=None):
     res = dict(states=0, transitions=0, executions=0, distinct_count=0, violations=[], samples=[], caps=[])
     for engine in ENGINES:
-        h = Harness(cfg, with_plugin=True, services=services, threads=True)
-        h2 = Harness(cfg, with_plugin=True, services=services, threads=True)
+        h = Harness(cfg, with_plugin=True, services=services, threads=True, extra_guards=guards)
+        h2 = Harness(cfg, with_plugin=True, services=services, threads=True, extra_guards=guards)
         viol: List[Dict[str, Any]] = []
 
         def flag(clause, detail, hist, ev=None):
@@ -322,6 +359,7 @@ def run_corruptions(base_hists: List[List[str]]) -> Dict[str, Any]:
 def units(tier: str) -> List[Any]:
     us: List[Any] = [("tree", t) for t in F.trees_upto(3 if tier == "quick" else 4)]
     us.append(("actor", None))
+    us.append(("actorf", None))
     bases = [["GO", "N", "BACK", "SPAWN"], ["SPAWN", "SPAWN2", "PING"], ["GO", "N"]]
     if tier == "thorough":
         bases += [[], ["SPAWN", "KILL"], ["GO", "N", "BACK", "HIST", "SPAWN2", "PING2", "INC"]]
@@ -340,6 +378,9 @@ def run_unit(unit):
         return explore_machine(cfg, evs, F.tree_str(payload))
     if kind == "actor":
         return explore_machine(actor_cfg(), ACTOR_EVENTS, "ACTOR", services={"kid": kid_machine()})
+    if kind == "actorf":
+        return explore_machine(actorf_cfg(), ACTORF_EVENTS, "ACTORF", services={"kidf": kid_factory},
+                               guards={"unspawned": lambda ctx, ev, p=None: not ctx.get("sp")})
     return run_corruptions(payload)
 
 
